@@ -89,6 +89,11 @@ def all_plans():
                           'workers': workers, 'nfiles': nfiles, 'gz': True, 'decode': 'ignore'})
     plans.append({'kind': 'none', 'point': 'none', 'file': 0, 'workers': 2, 'nfiles': 1,
                   'gz': True, 'decode': 'ignore'})
+    # a registered file that is gone (removed / a dangling symlink) by the time run() starts
+    for how in ('removed', 'dangling'):
+        for workers, nfiles, which in ((2, 3, 0), (2, 3, 1), (2, 1, 0)):
+            plans.append({'kind': 'gone', 'how': how, 'point': 'none', 'file': which, 'k': 1,
+                          'workers': workers, 'nfiles': nfiles})
     # a task failing in the CALLING process (single file, undecodable bytes inside an open
     # section), then runs re-using the same search definition objects (1 file / 2 files)
     for end in (True, False):
@@ -213,6 +218,7 @@ def judge(rep, item, mo, control):
            (f" other files {plan['big']} lines, results queue of {plan['queue_size']}"
             if plan.get('big') else '') + \
            (f" damaged gzip ({plan['how']})" if plan['kind'] == 'corrupt' else '') + \
+           (f" file {plan['how']} between add() and run()" if plan['kind'] == 'gone' else '') + \
            (" (unpicklable exception object)" if plan.get('exc') == 'unpicklable' else '') + \
            (f" {'gzip' if plan.get('gz') else 'plain'} files, {plan.get('exc', 'exception')}, "
             f"decode_errors={plan['decode']}" if plan.get('decode') else '')
@@ -307,6 +313,8 @@ def run(tier, seed, replay_case=None):
         must += [p for p in plans if p['kind'] == 'corrupt' and
                  (p['how'], p['nfiles']) in (('crc', 3), ('trunc', 1))]
         must += [p for p in plans if p['kind'] == 'none' and p.get('gz') and p['nfiles'] == 1]
+        must += [p for p in plans if p['kind'] == 'gone' and
+                 (p['how'], p['nfiles'], p['file']) in (('removed', 3, 0), ('dangling', 1, 0))]
         must += [p for p in plans if p.get('decode') and p.get('gz') and
                  (p['kind'] == 'none' or (p['k'] == 3 and p['workers'] == 2))]
         rest = [p for p in plans[2:] if p not in must]
